@@ -322,7 +322,7 @@ fn run(c: &mut Case) {
         // reference run without interleaved try_recover, same source & cfg
         let plain = plain_run(src.clone(), &cfg, len, None);
         for k in ks {
-            let kind = *c.rng.pick(&[ErrorKind::Other, ErrorKind::BrokenPipe, ErrorKind::TimedOut, ErrorKind::PermissionDenied, ErrorKind::UnexpectedEof, ErrorKind::WouldBlock]);
+            let kind = *c.rng.pick(&[ErrorKind::Other, ErrorKind::BrokenPipe, ErrorKind::TimedOut, ErrorKind::PermissionDenied, ErrorKind::UnexpectedEof, ErrorKind::Interrupted, ErrorKind::WouldBlock]);
             let msg = format!("verif-io-#{}", k);
             let f = plain_run(src.clone(), &cfg, len, Some((k, kind, msg.clone())));
             c.count("fault_runs");
